@@ -756,30 +756,167 @@ Qed.
 
 
 (* ---------- DomainRenamer ---------- *)
-(* ValueTransformer rebuilds every node: on the model's expressions (no ClockSignal / ResetSignal) it is the identity *)
-Lemma gen_rename_on_value_eq rho e : rename_on_value rho e = e.
+(* a predicate on every signal leaf of values / statements / memory ports / fragment trees *)
+Section AllSigs.
+Variable P : nat -> shape -> bool.
+Fixpoint all_sigs (e : expr) : bool :=
+  match e with
+  | EConst _ _ => true
+  | ESig i s => P i s
+  | EOp1 _ a => all_sigs a
+  | EOp2 _ a b => all_sigs a && all_sigs b
+  | ESlice a _ _ => all_sigs a
+  | EPart a off _ _ => all_sigs a && all_sigs off
+  | ECat ps => forallb all_sigs ps
+  | ESwitch t cs => all_sigs t && forallb (fun c => all_sigs (snd c)) cs
+  end.
+Fixpoint all_sigs_stmt (s : stmt) : bool :=
+  match s with
+  | SAssign l r => all_sigs l && all_sigs r
+  | SSwitch t cs => all_sigs t && forallb (fun c => forallb all_sigs_stmt (snd c)) cs
+  end.
+Definition all_sigs_mem (m : meminst) : bool :=
+  forallb (fun p => all_sigs (wp_addr p) && all_sigs (wp_data p) && all_sigs (wp_en p)) (mi_wports m) &&
+  forallb (fun p => all_sigs (rp_addr p) && all_sigs (rp_data p) && all_sigs (rp_en p)) (mi_rports m).
+Fixpoint all_sigs_frag (f : frag) : bool :=
+  match f with
+  | Frag st ms subs =>
+      forallb (fun e => forallb all_sigs_stmt (snd e)) st && forallb all_sigs_mem ms && forallb all_sigs_frag subs
+  end.
+End AllSigs.
+
+(* the renamer with an arbitrary rewriting F of the signal leaves (Xfrm.domain_renamer_cs is F = ren_sig base rho,
+   Xfrm.domain_renamer is F = ESig) *)
+Definition rn_mem (F : nat -> shape -> expr) (rho : list (nat * nat)) (m : meminst) : meminst :=
+  MI (mi_shape m) (mi_depth m) (mi_init m)
+     (map (fun p => WP (rename_dom rho (wp_dom p)) (map_sig F (wp_addr p)) (map_sig F (wp_data p)) (map_sig F (wp_en p))) (mi_wports m))
+     (map (fun p => RP (rename_dom rho (rp_dom p)) (map_sig F (rp_addr p)) (map_sig F (rp_data p)) (map_sig F (rp_en p)) (rp_transp p)) (mi_rports m)).
+Fixpoint rn_frag (F : nat -> shape -> expr) (rho : list (nat * nat)) (f : frag) : frag :=
+  match f with
+  | Frag st ms subs =>
+      Frag (rename_entries rho (map (fun e => (fst e, map (map_sig_stmt F) (snd e))) st))
+           (map (rn_mem F rho) ms) (map (rn_frag F rho) subs)
+  end.
+
+Lemma map_ext_forallb {A B} (f g : A -> B) (Q : A -> bool) l :
+  (forall x, Q x = true -> f x = g x) -> forallb Q l = true -> map f l = map g l.
+Proof.
+  intros H. induction l as [|x l IH]; [reflexivity|]. cbn [forallb map]. intros Hq. apply andb_true_iff in Hq.
+  destruct Hq as [H1 H2]. rewrite (H x H1), (IH H2). reflexivity.
+Qed.
+
+Section Ext.
+Variables (P : nat -> shape -> bool) (F G : nat -> shape -> expr).
+Hypothesis HFG : forall i s, P i s = true -> F i s = G i s.
+
+Lemma map_sig_ext_all e : all_sigs P e = true -> map_sig F e = map_sig G e.
+Proof.
+  induction e as [v s|j s|o a IH|o a b IHa IHb|a lo hi IH|a off w st IHa IHo|l IH|t cs IHt IH] using expr_ind';
+    cbn [all_sigs map_sig]; intros H; repeat (apply andb_true_iff in H; destruct H as [? H]).
+  - reflexivity.
+  - apply HFG. exact H.
+  - rewrite IH by assumption. reflexivity.
+  - rewrite IHa, IHb by assumption. reflexivity.
+  - rewrite IH by assumption. reflexivity.
+  - rewrite IHa, IHo by assumption. reflexivity.
+  - f_equal. rewrite forallb_forall in H. rewrite Forall_forall in IH. apply map_ext_in. intros x Hx. apply IH; auto.
+  - rewrite IHt by assumption. f_equal. rewrite forallb_forall in H. rewrite Forall_forall in IH.
+    apply map_ext_in. intros x Hx. rewrite (IH x Hx) by (apply H; exact Hx). reflexivity.
+Qed.
+
+Lemma map_sig_stmt_ext_all s : all_sigs_stmt P s = true -> map_sig_stmt F s = map_sig_stmt G s.
+Proof.
+  induction s as [l r|t cs IH] using stmt_ind2; cbn [all_sigs_stmt map_sig_stmt]; intros H;
+    apply andb_true_iff in H; destruct H as [H1 H2].
+  - rewrite (map_sig_ext_all l H1), (map_sig_ext_all r H2). reflexivity.
+  - rewrite (map_sig_ext_all t H1). f_equal. rewrite forallb_forall in H2. rewrite Forall_forall in IH.
+    apply map_ext_in. intros c Hc. f_equal. specialize (IH c Hc). specialize (H2 c Hc).
+    rewrite forallb_forall in H2. rewrite Forall_forall in IH. apply map_ext_in. intros x Hx. apply IH; auto.
+Qed.
+
+Lemma rn_mem_ext rho m : all_sigs_mem P m = true -> rn_mem F rho m = rn_mem G rho m.
+Proof.
+  unfold all_sigs_mem, rn_mem. intros H. apply andb_true_iff in H. destruct H as [Hw Hr]. f_equal.
+  - eapply map_ext_forallb; [|exact Hw]. intros p Hp. cbn beta in Hp. rewrite !andb_true_iff in Hp. destruct Hp as [[H1 H2] H3].
+    rewrite (map_sig_ext_all _ H1), (map_sig_ext_all _ H2), (map_sig_ext_all _ H3). reflexivity.
+  - eapply map_ext_forallb; [|exact Hr]. intros p Hp. cbn beta in Hp. rewrite !andb_true_iff in Hp. destruct Hp as [[H1 H2] H3].
+    rewrite (map_sig_ext_all _ H1), (map_sig_ext_all _ H2), (map_sig_ext_all _ H3). reflexivity.
+Qed.
+
+Lemma rn_frag_ext rho f : all_sigs_frag P f = true -> rn_frag F rho f = rn_frag G rho f.
+Proof.
+  induction f as [st ms subs IH] using frag_ind2. cbn [all_sigs_frag rn_frag]. intros H.
+  rewrite !andb_true_iff in H. destruct H as [[Hst Hms] Hsubs]. f_equal.
+  - f_equal. eapply map_ext_forallb; [|exact Hst]. intros e He. cbn beta in He. f_equal.
+    eapply map_ext_forallb; [|exact He]. apply map_sig_stmt_ext_all.
+  - eapply map_ext_forallb; [|exact Hms]. apply rn_mem_ext.
+  - rewrite forallb_forall in Hsubs. rewrite Forall_forall in IH. apply map_ext_in. intros s Hs. apply IH; auto.
+Qed.
+End Ext.
+
+Lemma map_sig_id e : map_sig (fun i s => ESig i s) e = e.
+Proof.
+  induction e as [v s|j s|o a IH|o a b IHa IHb|a lo hi IH|a off w st IHa IHo|l IH|t cs IHt IH] using expr_ind';
+    cbn [map_sig]; try congruence.
+  - f_equal. rewrite <- (map_id l) at 2. apply map_ext_in. intros x Hx. rewrite Forall_forall in IH. auto.
+  - rewrite IHt. f_equal. rewrite <- (map_id cs) at 2. apply map_ext_in. intros [ps x] Hx. rewrite Forall_forall in IH.
+    specialize (IH _ Hx). cbn [fst snd] in *. rewrite IH. reflexivity.
+Qed.
+Lemma map_sig_stmt_id s : map_sig_stmt (fun i s => ESig i s) s = s.
+Proof.
+  induction s as [l r|t cs IH] using stmt_ind2; cbn [map_sig_stmt]; rewrite ?map_sig_id; [reflexivity|]. f_equal.
+  rewrite <- (map_id cs) at 2. apply map_ext_in. intros [ps ss] Hc. cbn [fst snd]. f_equal.
+  rewrite Forall_forall in IH. specialize (IH _ Hc). cbn [snd] in IH.
+  rewrite <- (map_id ss) at 2. apply map_ext_in. intros x Hx. rewrite Forall_forall in IH. auto.
+Qed.
+
+Lemma rn_frag_cs base rho f : rn_frag (ren_sig base rho) rho f = domain_renamer_cs base rho f.
+Proof.
+  induction f as [st ms subs IH] using frag_ind2. cbn [rn_frag domain_renamer_cs]. f_equal.
+  rewrite Forall_forall in IH. apply map_ext_in. exact IH.
+Qed.
+Lemma rn_frag_plain rho f : rn_frag (fun i s => ESig i s) rho f = domain_renamer rho f.
+Proof.
+  induction f as [st ms subs IH] using frag_ind2. cbn [rn_frag domain_renamer]. f_equal.
+  - f_equal. rewrite <- (map_id st) at 2. apply map_ext. intros [d ss]. cbn [fst snd]. f_equal.
+    rewrite <- (map_id ss) at 2. apply map_ext. apply map_sig_stmt_id.
+  - apply map_ext. intros m. unfold rn_mem, rename_mem. f_equal; apply map_ext; intros p; rewrite !map_sig_id; reflexivity.
+  - rewrite Forall_forall in IH. apply map_ext_in. exact IH.
+Qed.
+
+(* what the regenerated value transformer does on a signal leaf (the ESig branch of rename_on_value) *)
+Definition gen_sig (base : nat) (rho : list (nat * nat)) (i : nat) (s : shape) : expr :=
+  match cs_decode base i with
+  | Some (d, O) => if dict_in d rho then ESig (cs_index base (dict_get rho d KeyError_dom) 0) (Sh 1 false) else ESig i s
+  | Some (d, S k) =>
+      if dict_in d rho then ESig (cs_index base (dict_get rho d KeyError_dom) (if Nat.eqb k 0 then 1 else 2)%nat) (Sh 1 false)
+      else ESig i s
+  | None => ESig i s
+  end.
+
+Lemma gen_rename_on_value_eq base rho e : rename_on_value base rho e = map_sig (gen_sig base rho) e.
 Proof.
   induction e as [v s|j s|o a IH|o a b IHa IHb|a lo hi IH|a off w st IHa IHo|l IH|t cs IHt IH] using expr_ind'.
   - reflexivity.
   - reflexivity.
-  - destruct o; cbn [rename_on_value]; cbv zeta; rewrite IH; reflexivity.
-  - destruct o; cbn [rename_on_value]; cbv zeta; rewrite IHa, IHb; reflexivity.
-  - cbn [rename_on_value]. cbv zeta. rewrite IH. reflexivity.
-  - cbn [rename_on_value]. cbv zeta. rewrite IHa, IHo. reflexivity.
-  - cbn [rename_on_value]. cbv zeta. f_equal. rewrite <- (map_id l) at 2. apply map_ext_in. intros x Hx.
+  - destruct o; cbn [rename_on_value map_sig]; cbv zeta; rewrite IH; reflexivity.
+  - destruct o; cbn [rename_on_value map_sig]; cbv zeta; rewrite IHa, IHb; reflexivity.
+  - cbn [rename_on_value map_sig]. cbv zeta. rewrite IH. reflexivity.
+  - cbn [rename_on_value map_sig]. cbv zeta. rewrite IHa, IHo. reflexivity.
+  - cbn [rename_on_value map_sig]. cbv zeta. f_equal. apply map_ext_in. intros x Hx.
     rewrite Forall_forall in IH. apply IH. exact Hx.
-  - cbn [rename_on_value]. cbv zeta. rewrite IHt. f_equal. rewrite <- (map_id cs) at 2. apply map_ext_in. intros [ps x] Hx.
-    rewrite Forall_forall in IH. specialize (IH _ Hx). cbn [snd] in IH. rewrite IH. reflexivity.
+  - cbn [rename_on_value map_sig]. cbv zeta. rewrite IHt. f_equal. apply map_ext_in. intros [ps x] Hx.
+    rewrite Forall_forall in IH. specialize (IH _ Hx). cbn [fst snd] in *. rewrite IH. reflexivity.
 Qed.
 
-Lemma gen_rename_on_statement_eq rho s : rename_on_statement rho s = s.
+Lemma gen_rename_on_statement_eq base rho s : rename_on_statement base rho s = map_sig_stmt (gen_sig base rho) s.
 Proof.
   induction s as [l r|t cs IH] using stmt_ind2.
-  - cbn [rename_on_statement]. cbv zeta. rewrite !gen_rename_on_value_eq. reflexivity.
-  - cbn [rename_on_statement]. cbv zeta. rewrite gen_rename_on_value_eq. f_equal.
-    rewrite <- (map_id cs) at 2. apply map_ext_in. intros [ps ss] Hc. f_equal.
+  - cbn [rename_on_statement map_sig_stmt]. cbv zeta. rewrite !gen_rename_on_value_eq. reflexivity.
+  - cbn [rename_on_statement map_sig_stmt]. cbv zeta. rewrite gen_rename_on_value_eq. f_equal.
+    apply map_ext_in. intros [ps ss] Hc. cbn [fst snd]. f_equal.
     rewrite Forall_forall in IH. specialize (IH _ Hc). cbn [snd] in IH.
-    rewrite <- (map_id ss) at 2. apply map_ext_in. intros x Hx. rewrite Forall_forall in IH. apply IH. exact Hx.
+    apply map_ext_in. intros x Hx. rewrite Forall_forall in IH. apply IH. exact Hx.
 Qed.
 
 Lemma rename_dom_get rho d : dict_get rho d d = rename_dom rho d.
@@ -787,31 +924,85 @@ Proof. unfold rename_dom. apply dict_get_lookup. Qed.
 Lemma rename_dom_if rho d : (if dict_in d rho then dict_get rho d KeyError_dom else d) = rename_dom rho d.
 Proof. unfold rename_dom. rewrite dict_in_lookup, dict_get_lookup. destruct (lookup d rho); reflexivity. Qed.
 
-Lemma gen_rename_on_memory_eq rho m : rename_on_memory rho m = rename_mem rho m.
+Lemma gen_rename_on_memory_eq base rho m : rename_on_memory base rho m = rn_mem (gen_sig base rho) rho m.
 Proof.
-  unfold rename_on_memory, rename_mem. cbv zeta. rewrite map_rp_id, map_wp_id, !map_map. f_equal.
+  unfold rename_on_memory, rn_mem. cbv zeta. rewrite map_rp_id, map_wp_id, !map_map. f_equal.
   - apply map_ext. intros p. cbn [wp_dom wp_addr wp_data wp_en]. rewrite rename_dom_if, !gen_rename_on_value_eq. reflexivity.
   - apply map_ext. intros p. cbn [rp_dom rp_addr rp_data rp_en rp_transp]. rewrite rename_dom_if, !gen_rename_on_value_eq. reflexivity.
 Qed.
 
-Lemma rename_unfold rho st ms subs :
-  rename_on_fragment rho (Frag st ms subs) =
-  Frag (fold_left (fun acc '(d, ss) => frag_add_statements (dict_get rho d d) (map (fun x => rename_on_statement rho x) ss) acc) st [])
-       (fold_left (fun a m => a ++ [rename_on_memory rho m]) ms [])
-       (fold_left (fun a s => a ++ [rename_on_fragment rho s]) subs []).
+Lemma rename_unfold base rho st ms subs :
+  rename_on_fragment base rho (Frag st ms subs) =
+  Frag (fold_left (fun acc '(d, ss) => frag_add_statements (dict_get rho d d) (map (fun x => rename_on_statement base rho x) ss) acc) st [])
+       (fold_left (fun a m => a ++ [rename_on_memory base rho m]) ms [])
+       (fold_left (fun a s => a ++ [rename_on_fragment base rho s]) subs []).
 Proof. reflexivity. Qed.
 
-(* no guard: every fragment tree, every map *)
-Theorem gen_rename_on_fragment_eq rho f : rename_on_fragment rho f = domain_renamer rho f.
+(* no guard: every fragment tree, every map, every base *)
+Theorem gen_rename_on_fragment_eq base rho f : rename_on_fragment base rho f = rn_frag (gen_sig base rho) rho f.
 Proof.
-  induction f as [st ms subs IH] using frag_ind2. rewrite rename_unfold. cbn [domain_renamer]. f_equal.
+  induction f as [st ms subs IH] using frag_ind2. rewrite rename_unfold. cbn [rn_frag]. f_equal.
   - unfold rename_entries. generalize (@nil (nat * list stmt)). induction st as [|[d ss] st IHs]; intros acc; [reflexivity|].
-    cbn [fold_left fst snd]. rewrite gen_add_statements_eq, rename_dom_get.
-    erewrite (map_ext _ (fun x => x)) by (intros; apply gen_rename_on_statement_eq). rewrite map_id. apply IHs.
+    cbn [fold_left map fst snd]. rewrite gen_add_statements_eq, rename_dom_get.
+    erewrite (map_ext _ (map_sig_stmt (gen_sig base rho))) by (intros; apply gen_rename_on_statement_eq). apply IHs.
   - rewrite fold_snoc_map. cbn [app]. apply map_ext. apply gen_rename_on_memory_eq.
   - rewrite fold_snoc_map. cbn [app]. apply map_ext_in. intros s Hs. rewrite Forall_forall in IH. apply IH. exact Hs.
 Qed.
 
+(* late-bound signals carry the shape unsigned(1) (ClockSignal.shape() / ResetSignal.shape()) *)
+Definition cs_shape_ok (base : nat) (i : nat) (s : shape) : bool :=
+  match cs_decode base i with Some _ => shape_eqb s (Sh 1 false) | None => true end.
+
+Lemma cs_index_decode base i d k : cs_decode base i = Some (d, k) -> cs_index base d k = i /\ (k < 3)%nat.
+Proof.
+  unfold cs_decode, cs_index. destruct (Nat.ltb i base) eqn:E; [discriminate|]. apply Nat.ltb_ge in E. intros H.
+  assert (Hd : d = ((i - base) / 3)%nat) by congruence. assert (Hk : k = ((i - base) mod 3)%nat) by congruence.
+  pose proof (Nat.mod_upper_bound (i - base) 3 ltac:(lia)) as Hu. pose proof (Nat.div_mod (i - base) 3 ltac:(lia)) as Hdm.
+  rewrite <- Hd, <- Hk in *. split; lia.
+Qed.
+
+Lemma shape_eqb_true a b : shape_eqb a b = true -> a = b.
+Proof.
+  unfold shape_eqb. destruct a as [wa sa], b as [wb sb]. cbn [width sgn]. intros H. apply andb_true_iff in H.
+  destruct H as [H1 H2]. apply Z.eqb_eq in H1. apply Bool.eqb_prop in H2. subst. reflexivity.
+Qed.
+
+Lemma gen_sig_cs base rho i s : cs_shape_ok base i s = true -> gen_sig base rho i s = ren_sig base rho i s.
+Proof.
+  unfold cs_shape_ok, gen_sig, ren_sig. destruct (cs_decode base i) as [[d k]|] eqn:E; [|reflexivity].
+  intros Hs. apply shape_eqb_true in Hs. subst s. destruct (cs_index_decode _ _ _ _ E) as [Hi Hk]. cbn [fst snd].
+  rewrite <- (rename_dom_if rho d). destruct k as [|k].
+  - destruct (dict_in d rho); [reflexivity|]. rewrite Hi. reflexivity.
+  - destruct (dict_in d rho); [|rewrite Hi; reflexivity].
+    destruct k as [|[|k]]; [reflexivity|reflexivity|lia].
+Qed.
+Lemma gen_sig_plain base rho i s : Nat.ltb i base = true -> gen_sig base rho i s = ESig i s.
+Proof. unfold gen_sig, cs_decode. intros ->. reflexivity. Qed.
+
+(* DomainRenamer with ClockSignal / ResetSignal: the model's domain_renamer_cs *)
+Theorem gen_rename_cs base rho f : all_sigs_frag (cs_shape_ok base) f = true ->
+  rename_on_fragment base rho f = domain_renamer_cs base rho f.
+Proof.
+  intros H. rewrite gen_rename_on_fragment_eq, <- rn_frag_cs. apply (rn_frag_ext (cs_shape_ok base)); [|exact H].
+  intros i s. apply gen_sig_cs.
+Qed.
+(* without late-bound signals (every signal index below base): the plain renamer *)
+Theorem gen_rename_plain base rho f : all_sigs_frag (fun i _ => Nat.ltb i base) f = true ->
+  rename_on_fragment base rho f = domain_renamer rho f.
+Proof.
+  intros H. rewrite gen_rename_on_fragment_eq, <- rn_frag_plain. apply (rn_frag_ext (fun i _ => Nat.ltb i base)); [|exact H].
+  intros i s. apply gen_sig_plain.
+Qed.
+Theorem gen_rename_value_cs base rho e : all_sigs (cs_shape_ok base) e = true ->
+  rename_on_value base rho e = map_sig (ren_sig base rho) e.
+Proof.
+  intros H. rewrite gen_rename_on_value_eq. apply (map_sig_ext_all (cs_shape_ok base)); [|exact H]. intros i s. apply gen_sig_cs.
+Qed.
+Theorem gen_rename_value_plain base rho e : all_sigs (fun i _ => Nat.ltb i base) e = true -> rename_on_value base rho e = e.
+Proof.
+  intros H. rewrite gen_rename_on_value_eq. rewrite <- (map_sig_id e) at 2.
+  apply (map_sig_ext_all (fun i _ => Nat.ltb i base)); [|exact H]. intros i s. apply gen_sig_plain.
+Qed.
 (* ---------- __init__: which control dicts / domain maps are accepted ---------- *)
 Lemma gen_control_init_dict_eq ctl : control_init_dict ctl = if dict_in 0%nat ctl then None else Some ctl.
 Proof. reflexivity. Qed.
